@@ -195,6 +195,8 @@ def e_gr_kary(w, q, out, ctx):
 def _condition(w, kind, n):
     if kind == "bool":
         return w.A["mask"][n], None
+    if kind in ("pin", "gap"):  # a selection of the pinned set / (degenerate worlds) of nobody
+        return w.cond(kind)[w.gapframe if kind == "gap" else n], None
     if kind == "real":
         return w.A["scalar"][n], None
     if kind == "complex":
@@ -205,10 +207,12 @@ def _condition(w, kind, n):
 
 
 @entry("conditional_gr", "pair", [{"k": "bool", "n": 0}, {"k": "real", "n": 1}, {"k": "complex", "n": 0},
-                                  {"k": "vector", "n": 1}, {"k": "tensor", "n": 0}, {"k": "real", "n": 0}], tri=True)
+                                  {"k": "vector", "n": 1}, {"k": "tensor", "n": 0}, {"k": "real", "n": 0},
+                                  {"k": "pin", "n": 1}, {"k": "gap", "n": 0}], tri=True)
 def e_cgr(w, q, out, ctx):
     cond, ctype = _condition(w, q["k"], q["n"])
-    return conditional_gr(w.snaps["x"].snapshots[q["n"]], condition=cond, conditiontype=ctype, ppp=w.A["ppp"], rdelta=0.1)
+    n = w.gapframe if q["k"] == "gap" else q["n"]
+    return conditional_gr(w.snaps["x"].snapshots[n], condition=cond, conditiontype=ctype, ppp=w.A["ppp"], rdelta=0.1)
 
 
 _SQ_P = [{"m": "range", "qr": 8.0, "op": False}, {"m": "range", "qr": 10.0, "op": True}, {"m": "vec"},
@@ -258,7 +262,8 @@ def e_sq_kary(w, q, out, ctx):
     return res
 
 
-@entry("conditional_sq", "pair", [{"k": "bool", "n": 0}, {"k": "real", "n": 1}, {"k": "vector", "n": 0}, {"k": "bool", "n": 1}])
+@entry("conditional_sq", "pair", [{"k": "bool", "n": 0}, {"k": "real", "n": 1}, {"k": "vector", "n": 0}, {"k": "bool", "n": 1},
+                                  {"k": "pin", "n": 0}, {"k": "gap", "n": 0}])
 def e_csq(w, q, out, ctx):
     cond, _ = _condition(w, q["k"], q["n"])
     a, b = conditional_sq(w.snaps["x"].snapshots[q["n"]], qvector=w.A["qvec"], condition=cond)
@@ -477,12 +482,17 @@ def _dyn(cls, w, c, ctx, tag):
     return ctx.obj((tag, c["m"], c["cal"], c["nb"]), make)
 
 
-@entry("Dynamics.relaxation", "dyn", [{"c": 0, "cond": False}, {"c": 1, "cond": True}, {"c": 2, "cond": False},
-                                      {"c": 3, "cond": True}, {"c": 0, "cond": True}, {"c": 1, "cond": False}], tri=True, out=True)
+# cond: None or the kind of condition mask (World.cond): 'mix' ordinary, 'pin' only the pinned set (msd == 0 and
+# alpha2 = 0/0 = NaN in a pinned world), 'mob' only the others, 'gap' nobody selected in one origin frame (degenerate
+# worlds only: every column of that lag is a mean over nothing)
+@entry("Dynamics.relaxation", "dyn", [{"c": 0, "cond": None}, {"c": 1, "cond": "mix"}, {"c": 2, "cond": None},
+                                      {"c": 3, "cond": "mix"}, {"c": 0, "cond": "mix"}, {"c": 1, "cond": None},
+                                      {"c": 0, "cond": "pin"}, {"c": 1, "cond": "pin"}, {"c": 0, "cond": "mob"},
+                                      {"c": 1, "cond": "gap"}, {"c": 2, "cond": "pin"}, {"c": 0, "cond": "gap"}], tri=True, out=True)
 def e_dyn(w, q, out, ctx):
     of = "dyn.csv" if out else ""
     d = _dyn(Dynamics, w, _DYN[q["c"]], ctx, "dyn")
-    res = d.relaxation(qconst=2 * np.pi, condition=w.A["mask"] if q["cond"] else None, outputfile=of)
+    res = d.relaxation(qconst=2 * np.pi, condition=w.cond(q["cond"]) if q["cond"] else None, outputfile=of)
     if out:
         _csv_check("Dynamics.relaxation", of, res)
     return res
@@ -508,13 +518,16 @@ def e_sq4(w, q, out, ctx):
     return res
 
 
-@entry("LogDynamics.relaxation", "dyn", [{"c": 0, "cond": False}, {"c": 1, "cond": True}, {"c": 3, "cond": False},
-                                         {"c": 0, "cond": True}],
+@entry("LogDynamics.relaxation", "dyn", [{"c": 0, "cond": None}, {"c": 1, "cond": "mix"}, {"c": 3, "cond": None},
+                                         {"c": 0, "cond": "mix"}, {"c": 0, "cond": "pin"}, {"c": 1, "cond": "pin"},
+                                         {"c": 1, "cond": "mob"}, {"c": 0, "cond": "gap"}],
        tri=True, out=True)
 def e_logdyn(w, q, out, ctx):
     of = "logdyn.csv" if out else ""
     d = _dyn(LogDynamics, w, _DYN[q["c"]], ctx, "logdyn")
-    res = d.relaxation(qconst=2 * np.pi, condition=w.A["mask"][0] if q["cond"] else None, outputfile=of)
+    # one mask for all frames; 'gap': the frame of the per-frame mask in which nobody is selected
+    cond = w.cond(q["cond"])[w.gapframe if q["cond"] == "gap" else 0] if q["cond"] else None
+    res = d.relaxation(qconst=2 * np.pi, condition=cond, outputfile=of)
     if out:
         _csv_check("LogDynamics.relaxation", of, res)
     return res
